@@ -98,7 +98,7 @@ v("C03", "n1-lowercase-helper-bytes", "benign", "router.go",
 # ---------------------------------------------------------------- C04
 v("C04", "b1-copyroute-forgets-name", "break", "router.go", "\t\tName:     route.Name,\n", "", "copyRoute:Route.Name", "mounted routes lose their name")
 v("C04", "b2-prefix-no-params", "break", "router.go",
-  "\troute.Params = parseRoute(prefixedPath, app.customConstraints...).params\n", "", "addPrefixToRoute:Route.Params", "reverts the F3 fix")
+  "\troute.Params = parseRoute(prefixedPath, constraints...).params\n", "", "addPrefixToRoute:Route.Params", "reverts the F3 fix")
 v("C04", "b3-group-second-joiner", "break", "group.go",
   "grp.app.register(methods, getGroupPath(grp.Prefix, path), grp, append([]Handler{handler}, handlers...)...)",
   "grp.app.register(methods, grp.Prefix+path, grp, append([]Handler{handler}, handlers...)...)", "(*Group).Add:register", "second, diverging joiner")
@@ -353,6 +353,10 @@ v("C20", "n2-names-slices-contains", "benign", "middleware/encryptcookie/utils.g
 
 v("C20", "b8-visitor-not-deferred", "break", "middleware/encryptcookie/encryptcookie.go", "\t\tdefer c.Response().Header.VisitAllCookie(func(key, _ []byte) {", "\tc.Response().Header.VisitAllCookie(func(key, _ []byte) {", "response-visitor", "the pass runs before the chain: nothing the handlers set is encrypted")
 v("C20", "n3-deferred-block", "benign", "middleware/encryptcookie/encryptcookie.go", "\t\tdefer c.Response().Header.VisitAllCookie(func(key, _ []byte) {", "\t\tdefer func() {\n\t\tc.Response().Header.VisitAllCookie(func(key, _ []byte) {", why="the pass is wrapped in a deferred function literal", file2="middleware/encryptcookie/encryptcookie.go", find2="\t\t})\n\n\t\t// Continue stack\n\t\treturn c.Next()", replace2="\t\t})\n\t\t}()\n\n\t\t// Continue stack\n\t\treturn c.Next()")
+
+v("C04", "b9-mount-reparse-parent-constraints-only", "break", "router.go", "\tif own := constraintsOf(route); len(own) > 0 {\n\t\tconstraints = append(append(make([]CustomConstraint, 0, len(constraints)+len(own)), constraints...), own...)\n\t}\n", "\t_ = constraintsOf\n", "route-constraints", "reverts F37: sub-app constraints dropped on mount")
+v("C02", "b9-star-decided-after-unescape", "break", "router.go", "\t\tisStar := pathPretty == \"/*\"", "\t\tisStar := pathClean == \"/*\"", "decided-on-escaped-pattern", "reverts F38")
+v("C08", "b8-error-handler-exact-prefix", "break", "app.go", "\tif !app.config.CaseSensitive {\n\t\tpath = utils.ToLower(path)\n\t}\n", "", "case-folding-like-routing", "reverts half of F39: the path is not folded")
 
 os.makedirs('/verif/selftest', exist_ok=True)
 for prop, vs in V.items():
